@@ -69,7 +69,7 @@ HARNESSES = [
          funcs=["output_qcow2_meta_data_blocks", "initialize_qcow2_image", "init_refcount", "update_refcount", "add_l2_item",
                 "flush_l2_cache", "sync_refcount", "write_header", "generic_write", "check_zero_block"],
          extra_src=["lib/ext2fs/blknum.c"],
-         configs=[{"NBLK": 12, "ZERO": 0, "ACTIVE": 7}], cbmc_flags=["--object-bits", "10", "--max-field-sensitivity-array-size", "2"],
+         configs=[{"NBLK": 12, "ZERO": 0, "ACTIVE": 7}], cbmc_flags=["--object-bits", "10"],
          unwind=7,
          unwindset=["main.%d:161" % i for i in range(8)] + ["output_qcow2_meta_data_blocks.0:14", "output_qcow2_meta_data_blocks.1:18",
                     "put_l2_cache.0:6", "put_l2_cache.1:6", "init_l2_cache.0:6", "check_zero_block.0:34", "get_bits_from_size.0:7",
